@@ -49,11 +49,14 @@ def rule_reserved(ctx: Ctx):
     ek = ctx.p.find_fn("EventData.extended_kwargs")
     if ek is None:
         raise AnalysisError("anchor lost: EventData.extended_kwargs")
+    from ..shapes import dict_model
+
     keys: Set[str] = set()
     for p in ctx.paths(ek, exc_edges="none"):
-        for e in p.of("store"):
-            if e.x.get("subscript") and isinstance(e.term.slice, ast.Constant):
-                keys.add(e.term.slice.value)
+        if p.kind == "return":
+            dm = dict_model(p, p.value if isinstance(p.value, ast.Dict) else show(p.value))
+            if dm is not None:
+                keys |= {k_ for k_, _, _ in dm.writes if k_ not in ("**", "?")}
     mod = ctx.p.module("statemachine/event.py")
     rep.check(table == DOCUMENTED_BUILTINS, "C07.reserved", f"{mod.rel} {tname}",
               "the reserved-name table is exactly the documented built-in parameters", f"{mod.rel}::{tname}",
@@ -90,6 +93,8 @@ def rule_reserved(ctx: Ctx):
 
 
 def rule_layer(ctx: Ctx):
+    from ..shapes import dict_model
+
     rep = ctx.rep
     ek = ctx.p.find_fn("EventData.extended_kwargs")
     for p in ctx.paths(ek, exc_edges="none"):
@@ -97,23 +102,38 @@ def rule_layer(ctx: Ctx):
         if p.kind != "return":
             rep.violation("C07.layer", ek.loc(), "extended_kwargs does not return", ek.key, p.kind)
             continue
-        obj = show(p.value)
-        src = xshow(p.value, evs)
-        rep.check(src == "self.trigger_data.kwargs.copy()" or src == "dict(self.trigger_data.kwargs)", "C07.layer", ek.loc(),
-                  "the mapping handed to callbacks starts as a *copy* of the user's keyword arguments", ek.key, f"kwargs = {src}")
-        created = next((e.idx for e in evs if e.kind in ("call", "alloc") and f"$c{e.idx}" == obj or f"$l{e.idx}" == obj), None)
-        stores = [e for e in p.of("store") if e.x.get("subscript") and show(e.term.value) == obj]
-        rep.check(created is not None and all(e.idx > created for e in stores) and len(stores) >= len(DOCUMENTED_BUILTINS),
+        dm = dict_model(p, p.value if isinstance(p.value, ast.Dict) else show(p.value))
+        if dm is None and xshow(p.value, evs) == "self.trigger_data.kwargs":
+            rep.violation("C07.layer", ek.loc(), "extended_kwargs writes the built-ins into the user's own kwargs mapping instead of a copy "
+                          "(they leak into the trigger and into later candidate transitions)", ek.key, "kwargs = self.trigger_data.kwargs")
+            continue
+        if dm is None:
+            rep.unrecognised("C07.layer", ek.loc(), f"extended_kwargs returns `{xshow(p.value, evs)}`, not a mapping it built")
+        star_first = bool(dm.writes) and dm.writes[0][0] == "**" and xshow(dm.writes[0][1], evs) == "self.trigger_data.kwargs"
+        if dm.base == "{}" and star_first:
+            dm.base = "dict(self.trigger_data.kwargs)"  # `{**user_kwargs, builtins...}`
+            dm.writes = dm.writes[1:]
+        rep.check(dm.base in ("self.trigger_data.kwargs.copy()", "dict(self.trigger_data.kwargs)", "self.trigger_data.kwargs") or
+                  any(k_ == "**" and xshow(v, evs) == "self.trigger_data.kwargs" for k_, v, _ in dm.writes), "C07.layer", ek.loc(),
+                  "the mapping handed to callbacks starts from the user's keyword arguments", ek.key, f"kwargs = {dm.base}")
+        rep.check(dm.base != "self.trigger_data.kwargs", "C07.layer", ek.loc(),
+                  "the mapping handed to callbacks is a *copy* of the user's keyword arguments (built-ins do not leak into the trigger)", ek.key,
+                  f"kwargs = {dm.base}")
+        builtin_writes = [(k_, e) for k_, v, e in dm.writes if k_ in DOCUMENTED_BUILTINS]
+        rep.check(len({k_ for k_, _ in builtin_writes}) >= len(DOCUMENTED_BUILTINS) and all(e.idx >= dm.created for _, e in builtin_writes),
                   "C07.layer", ek.loc(), "every built-in key is written after the copy, into that copy", ek.key,
-                  f"{len(stores)} built-in writes into {obj}")
-        if stores:
-            last = max(e.idx for e in stores)
-            first = min(e.idx for e in stores)
-            later = [e for e in evs if e.kind == "call" and isinstance(e.term.func, ast.Attribute)
-                     and e.term.func.attr in ("update", "setdefault", "__ior__") and show(e.term.func.value) == obj and e.idx > first]
-            aug = [e for e in evs if e.kind == "bind" and isinstance(e.term, ast.BinOp) and obj in show(e.term)]
-            rep.check(not later and not aug, "C07.layer", ek.loc(), "nothing merges user values over the built-ins afterwards", ek.key,
-                      "; ".join(e.show() for e in later + aug))
+                  f"{len(builtin_writes)} built-in writes into the mapping")
+        first = min([e.idx for _, e in builtin_writes], default=dm.created)
+        merges = [e for k_, v, e in dm.writes if k_ == "**" and e.idx >= first]
+        # a `**user_kwargs` merged in the same or a later write than a built-in re-introduces user values over it
+        later = []
+        for k_, v, e in dm.writes:
+            if k_ == "**" and "kwargs" in xshow(v, evs):
+                pos = dm.writes.index((k_, v, e))
+                if any(kk in DOCUMENTED_BUILTINS for kk, _, _ in dm.writes[:pos]):
+                    later.append(e)
+        rep.check(not later, "C07.layer", ek.loc(), "nothing merges user values over the built-ins afterwards", ek.key,
+                  "; ".join(e.show() for e in later))
 
 
 def rule_adapter(ctx: Ctx):
@@ -251,6 +271,9 @@ def rule_consume(ctx: Ctx):
             n_kw += 1
             ok = False
             for e in seg:
+                if e.kind == "branch" and isinstance(e.term, ast.Compare) and isinstance(e.term.ops[0], ast.In) and show(e.term.left) == f"{elem}.name" \
+                        and show(e.term.comparators[0]) == "kwargs" and e.x["taken"] is False:
+                    ok = True  # no same-named keyword: the parameter is left to its default
                 if e.kind == "bind" and e.x["name"] == "kwargs_param" and show(e.term) == elem:
                     ok = True
                 if e.kind == "branch" and show(e.term) == f"{elem}.kind == Parameter.VAR_POSITIONAL" and e.x["taken"]:
